@@ -1,7 +1,8 @@
 """C02 Finalized transactions are valid, exact, and safe against an altered reply.
 
   MC   tlc enumerates every applicable case of spec/MCSlateAlgebra.tla (5 flows x
-       shapes of the deal x ~70 alterations of a slate in flight) and model-checks, on
+       shapes of the deal x ~70 alterations of a slate in flight, and every ordered pair
+       of alterations on the basic shape) and model-checks, on
        the line-by-line transcription of finalize (SlateAlgebra!Finalize), that nothing
        the ALGEBRA condemns (SlateAlgebra!Verdict = must_fail) is accepted and that
        whatever is accepted is consensus-valid, fee-sufficient and exactly the deal;
@@ -31,24 +32,31 @@ ASSUME = [
 
 TIERS = {
     # per_class: cases per (flow, stage, tamper) class; group: cases per world
-    "quick": dict(per_class=1, group=8, mutants=["validate"], tv_chunks=6, replay_timeout=150),
-    "thorough": dict(per_class=1000, group=8, mutants=["validate", "check_fees", "restore_fee", "restore_amount"],
-                     tv_chunks=10, replay_timeout=1300),
+    # pairs_hot: pairs of alterations that the transcription accepts or that cancel each other out;
+    # pairs_rest: a seeded sample of all other pairs
+    "quick": dict(per_class=1, pairs_hot=40, pairs_rest=40, group=8, mutants=["validate"], tv_chunks=6, replay_timeout=150),
+    "thorough": dict(per_class=1000, pairs_hot=100000, pairs_rest=700, group=8, mutants=["validate", "check_fees", "restore_fee", "restore_amount"],
+                     tv_chunks=10, replay_timeout=1350),
 }
 
 
+FLOWS = ("send", "late", "self", "inv", "invself")
+FIELDS = ("flow", "nin", "nch", "incfee", "proof", "stage", "tamper", "tamper2")
+
+
 def case_class(c):
-    return "%s:%s:%s" % (c["flow"], c["stage"], c["tamper"])
+    t2 = c.get("tamper2", "none")
+    return "%s:%s:%s%s" % (c["flow"], c["stage"], c["tamper"], "" if t2 == "none" else "+" + t2)
 
 
-def write_cfg(name, skip, nin, nch, emit, invs):
+def write_cfg(name, skip, nin, nch, emit, invs, pairflows=(), singles=True):
     d = os.path.join(WORK, "cfg_C02")
     os.makedirs(d, exist_ok=True)
     p = os.path.join(d, name + ".cfg")
     with open(p, "w") as f:
-        f.write("CONSTANTS\n  Skip = {%s}\n  NinSet = {%s}\n  NchSet = {%s}\n  Emit = %s\nSPECIFICATION Spec\n%sCHECK_DEADLOCK FALSE\n" % (
+        f.write("CONSTANTS\n  Skip = {%s}\n  NinSet = {%s}\n  NchSet = {%s}\n  Emit = %s\n  PairFlows = {%s}\n  WithSingles = %s\nSPECIFICATION Spec\n%sCHECK_DEADLOCK FALSE\n" % (
             ", ".join('"%s"' % x for x in skip), ", ".join(map(str, nin)), ", ".join(map(str, nch)), "TRUE" if emit else "FALSE",
-            "".join("INVARIANT %s\n" % i for i in invs)))
+            ", ".join('"%s"' % x for x in pairflows), "TRUE" if singles else "FALSE", "".join("INVARIANT %s\n" % i for i in invs)))
     return p
 
 
@@ -59,7 +67,7 @@ def run_mutant(m):
     cfg = write_cfg("mut_" + m.replace("+", "_"), skip, [1], [0, 1], False, ["Mutant_Report"])
     r = run_tlc("MCSlateAlgebra.tla", cfg, "mc_C02_mut_" + m.replace("+", "_"), workers=2, timeout=300, keep_tags=("MUTCEX",), max_keep=100000)
     cex = parse_printed(r["printed"]["MUTCEX"], "MUTCEX")
-    return m, r, sorted(set("%s:%s:%s" % (x["flow"], x["stage"], x["tamper"]) for x in cex))
+    return m, r, sorted(set(case_class(x) for x in cex))
 
 
 def split_trace(nd, n, tag):
@@ -178,6 +186,7 @@ def run(tier, replay_path, t0):
         stim = info["cases"]
         for i, c in enumerate(stim):
             c["id"] = i
+            c.setdefault("tamper2", "none")
         allcases = stim
     else:
         # seeded spec mutants run beside the main enumeration
@@ -187,26 +196,57 @@ def run(tier, replay_path, t0):
                     mutants[m] = dict(completed=r["completed"], caught_by=cl)
         mut_thread = threading.Thread(target=muts)
         mut_thread.start()
-        cfg = write_cfg("mc", [], [1, 2], [0, 1, 2], True, ["Inv_Reply", "Inv_Honest", "Inv_FinalTxValidExact", "Inv_TamperRefused", "EmitCase"])
-        mc = run_tlc("MCSlateAlgebra.tla", cfg, "mc_C02_" + tier, workers=4, timeout=600, extra=["-continue"], keep_tags=("CASE",), max_keep=1000000)
-        if not mc["completed"] and not mc["violated"]:
-            log(mc["out"][-3000:])
-            raise ToolError("TLC did not complete the enumeration of MCSlateAlgebra")
-        allcases = parse_printed(mc["printed"]["CASE"], "CASE")
-        if len(allcases) != mc["states"]:
-            raise ToolError("case print-out incomplete: %d printed, %d states" % (len(allcases), mc["states"]))
+        # the enumeration is split over six TLC processes: all single alterations, and the pairs flow by flow
+        invs = ["Inv_Reply", "Inv_Honest", "Inv_FinalTxValidExact", "Inv_TamperRefused", "EmitCase"]
+        jobs = [("singles", (), True)] + [("pairs_" + f, (f,), False) for f in FLOWS]
+
+        def mc_part(j):
+            tag, pf, singles = j
+            cfg = write_cfg("mc_" + tag, [], [1, 2], [0, 1, 2], True, invs, pairflows=pf, singles=singles)
+            r = run_tlc("MCSlateAlgebra.tla", cfg, "mc_C02_%s_%s" % (tier, tag), workers=2, timeout=600, extra=["-continue"], keep_tags=("CASE",), max_keep=1000000)
+            if not r["completed"] and not r["violated"]:
+                log(r["out"][-3000:])
+                raise ToolError("TLC did not complete the enumeration of MCSlateAlgebra (%s)" % tag)
+            cs = parse_printed(r["printed"]["CASE"], "CASE")
+            if len(cs) != r["states"]:
+                raise ToolError("case print-out incomplete (%s): %d printed, %d states" % (tag, len(cs), r["states"]))
+            return r, cs
+        tmc = time.time()
+        with concurrent.futures.ThreadPoolExecutor(max_workers=len(jobs)) as ex:
+            parts = list(ex.map(mc_part, jobs))
+        allcases = [c for _, cs in parts for c in cs]
+        mc = {"states": sum(r["states"] for r, _ in parts), "transitions": sum(r["transitions"] for r, _ in parts),
+              "completed": all(r["completed"] for r, _ in parts), "violated": [t for r, _ in parts for t in r["violated"]],
+              "wall_s": time.time() - tmc}
         nm = sum(1 for c in allcases if c["verdict"] == "must_fail")
         log("  MC: %d cases enumerated and model-checked (%d must-fail, %d may-fail; %d predicted ok) in %.0fs; model invariants violated: %s" % (
             len(allcases), nm, len(allcases) - nm, sum(1 for c in allcases if c["predict"] == "ok"), mc["wall_s"],
             sorted(set(x for t in mc["violated"] for x in t if x)) or "none"))
+        singles = [c for c in allcases if c["tamper2"] == "none"]
+        pairs = [c for c in allcases if c["tamper2"] != "none"]
         by = {}
-        for c in allcases:
+        for c in singles:
             by.setdefault(case_class(c), []).append(c)
         stim = []
         for k in sorted(by):
-            lst = by[k]
+            lst = sorted(by[k], key=lambda c: json.dumps(c, sort_keys=True))
             rnd.shuffle(lst)
             stim += lst[:T["per_class"]]
+        # pairs: "hot" = accepted by the transcription, or weaker than one of their halves
+        vsingle = {(c["flow"], c["proof"], c["stage"], c["tamper"]): c["verdict"] for c in singles if c["nin"] == 1 and c["nch"] == 1 and not c["incfee"]}
+
+        def hot(c):
+            a = vsingle.get((c["flow"], c["proof"], c["stage"], c["tamper"]))
+            b = vsingle.get((c["flow"], c["proof"], "post", c["tamper2"]))
+            return c["predict"] == "ok" or (c["verdict"] == "may_fail" and "must_fail" in (a, b))
+        hots = sorted((c for c in pairs if hot(c)), key=lambda c: json.dumps(c, sort_keys=True))
+        rest = sorted((c for c in pairs if not hot(c)), key=lambda c: json.dumps(c, sort_keys=True))
+        rnd.shuffle(hots)
+        rnd.shuffle(rest)
+        stim += hots[:T["pairs_hot"]] + rest[:T["pairs_rest"]]
+        log("  stimulus: %d single alterations (%d classes), %d of %d hot pairs, %d of %d other pairs" % (
+            len(stim) - len(hots[:T["pairs_hot"]]) - len(rest[:T["pairs_rest"]]), len(by), len(hots[:T["pairs_hot"]]), len(hots),
+            len(rest[:T["pairs_rest"]]), len(rest)))
         rnd.shuffle(stim)
         for i, c in enumerate(stim):
             c["id"] = i
@@ -214,10 +254,22 @@ def run(tier, replay_path, t0):
         raise ToolError("no stimulus")
     groups = [stim[i:i + T["group"]] for i in range(0, len(stim), T["group"])]
     log("  executing %d exchanges (%d classes) on real wallets in %d worlds" % (len(stim), len(set(case_class(c) for c in stim)), len(groups)))
+    # wallets and chains live in a directory of this check alone (other checks share harness/target/tmp)
+    os.environ.setdefault("VERIF_TMP", workdir("tmp_C02"))
     nd = replay("replay_tamper", {"groups": groups}, "C02", timeout=T["replay_timeout"])
     events = read_ndjson(nd)
     if len(events) != len(stim):
         raise ToolError("the harness returned %d lines for %d cases" % (len(events), len(stim)))
+    # cases that could not be set up (skip:*, not a class the slate cannot carry) are run once more in fresh worlds
+    again = [e["c"] for e in events if e.get("run", "").startswith("skip:") and not e["run"].startswith("skip:tamper:")]
+    if again:
+        log("  %d cases could not be set up (%s); running them once more" % (len(again), sorted(set(e["run"] for e in events if e["c"] in again))[:4]))
+        nd2 = replay("replay_tamper", {"groups": [again[i:i + 4] for i in range(0, len(again), 4)]}, "C02_retry", timeout=max(150, T["replay_timeout"] // 3))
+        redo = {e["c"]["id"]: e for e in read_ndjson(nd2)}
+        events = [redo.get(e["c"]["id"], e) for e in events]
+        with open(nd, "w") as f:
+            for e in events:
+                f.write(json.dumps(e) + "\n")
     viols, nonconfs, skips, m_ok = validate(nd, "C02", T["tv_chunks"])
     by_id = {e["c"]["id"]: e for e in events}
     hard_skips = [s for s in skips if not s["why"].startswith("skip:tamper:")]
@@ -232,7 +284,7 @@ def run(tier, replay_path, t0):
         k["count"] += 1
         if len(k["cases"]) < 3:
             e = by_id[v["id"]]
-            k["cases"].append({x: e["c"][x] for x in ("flow", "nin", "nch", "incfee", "proof", "stage", "tamper")})
+            k["cases"].append({x: e["c"].get(x, "none") for x in FIELDS})
             k["observed"].append({"o": e.get("o"), "steps": e.get("steps"), "info": v.get("info")})
     if nonconfs:
         per = {}
@@ -253,7 +305,7 @@ def run(tier, replay_path, t0):
     ran = [e for e in events if e.get("run") == "ok"]
     kinds, wit = {}, {"success_validated_and_mined": 0, "must_fail_refused": 0, "may_fail_succeeded": 0, "failed_then_cancelled": 0,
                       "late_lock_failed_after_locking": 0, "noreply": 0, "delivered_off_wire": 0}
-    verdict_of = {json.dumps({x: c[x] for x in ("flow", "nin", "nch", "incfee", "proof", "stage", "tamper")}, sort_keys=True): c.get("verdict") for c in allcases}
+    verdict_of = {json.dumps({x: c.get(x, "none") for x in FIELDS}, sort_keys=True): c.get("verdict") for c in allcases}
     for e in events:
         c = e["c"]
         if e.get("run") == "noreply":
@@ -261,7 +313,7 @@ def run(tier, replay_path, t0):
         if e.get("run") != "ok":
             continue
         o = e["o"]
-        vd = verdict_of.get(json.dumps({x: c[x] for x in ("flow", "nin", "nch", "incfee", "proof", "stage", "tamper")}, sort_keys=True), c.get("verdict"))
+        vd = verdict_of.get(json.dumps({x: c.get(x, "none") for x in FIELDS}, sort_keys=True), c.get("verdict"))
         ok = o["res"] == "ok"
         kk = "%s:%s" % (vd, "ok" if ok else o["res"])
         kinds[kk] = kinds.get(kk, 0) + 1
@@ -287,12 +339,13 @@ def run(tier, replay_path, t0):
         "traces_validated_against_impl": len(ran),
         "samples": [{"case": e["c"], "observed": {k: e["o"][k] for k in ("res", "tx", "deal", "resv", "cancel", "pending_after")}} for e in rnd.sample(ran, min(6, len(ran)))],
         "exhaustive": bool(mc and mc["completed"]),
-        "mc_constants": {"Skip": [], "NinSet": [1, 2], "NchSet": [0, 1, 2]},
+        "mc_constants": {"Skip": [], "NinSet": [1, 2], "NchSet": [0, 1, 2], "PairFlows": list(FLOWS)},
         "mc_wall_s": round(mc["wall_s"], 1) if mc else 0,
         "model_invariants_violated": sorted(set(x for t in mc["violated"] for x in t if x)) if mc else [],
         "cases_enumerated": len(allcases),
         "cases_must_fail": sum(1 for c in allcases if c.get("verdict") == "must_fail"),
         "classes_enumerated": len(set(case_class(c) for c in allcases)),
+        "pair_cases_executed": sum(1 for e in ran if e["c"].get("tamper2", "none") != "none"),
         "cases_executed": len(ran),
         "classes_executed": len(set(case_class(e["c"]) for e in ran)),
         "cases_skipped": len(skips),
